@@ -66,6 +66,7 @@ type Case struct {
 	Scale   int     `json:"scale,omitempty"`   // projection: integer units per world unit
 	Par     int     `json:"par,omitempty"`     // 1: MarchParallel / MarchOnAttributeParallel
 	Pre     int     `json:"pre,omitempty"`     // marches of the same canvas (other thresholds) BEFORE the observed one
+	Add     int     `json:"add,omitempty"`     // entry point that stores the field: 0 AddField, 1 AddFieldParallel, 2 AddFieldParallel2
 	Decoy   int     `json:"decoy,omitempty"`   // another field under another attribute on the same canvas (1 added before, 2 after)
 
 	// prim
